@@ -24,6 +24,7 @@ type Config struct {
 	withConcurrency       bool
 	listenersAllowed      bool
 	initialized           bool
+	initErr               error
 	filename              string
 	vm                    *vm.VirtualMachine
 }
@@ -83,15 +84,13 @@ func (cfg *Config) GlobalNames() []string {
 
 func (cfg *Config) init() error {
 	if cfg.initialized {
-		return nil
+		return cfg.initErr
 	}
 	cfg.initialized = true
 	cfg.applyDefaultGlobals()
 	cfg.applyDenylist()
-	if err := cfg.applyOverrides(); err != nil {
-		return err
-	}
-	return nil
+	cfg.initErr = cfg.applyOverrides()
+	return cfg.initErr
 }
 
 func (cfg *Config) applyDefaultGlobals() {
@@ -132,6 +131,7 @@ func (cfg *Config) applyOverrides() error {
 		names = append(names, name)
 	}
 	sort.Strings(names)
+	var firstErr error
 	for _, name := range names {
 		value := cfg.overrides[name]
 		parts := strings.Split(name, ".")
@@ -141,7 +141,13 @@ func (cfg *Config) applyOverrides() error {
 		}
 		valueObj := object.FromGoType(value)
 		if valueObj == nil || valueObj.Type() == object.ERROR {
-			return fmt.Errorf("init error: invalid value for global override: %v", value)
+			// Report the first invalid override, but still apply the others:
+			// a replacement the host asked for must not be skipped because
+			// an unrelated override is invalid
+			if firstErr == nil {
+				firstErr = fmt.Errorf("init error: invalid value for global override %q: %v", name, value)
+			}
+			continue
 		}
 		moduleName := parts[0]
 		nestedModulePath := parts[1 : len(parts)-1]
@@ -154,7 +160,7 @@ func (cfg *Config) applyOverrides() error {
 			}
 		}
 	}
-	return nil
+	return firstErr
 }
 
 // CompilerOpts returns compiler options derived from this configuration.
@@ -211,9 +217,10 @@ func resolveModule(m *object.Module, attr []string) (*object.Module, bool) {
 	if len(attr) == 0 {
 		return m, true
 	}
-	var result *object.Module
+	// Descend one module per path element
+	result := m
 	for _, name := range attr {
-		if obj, ok := m.GetAttr(name); ok {
+		if obj, ok := result.GetAttr(name); ok {
 			if modObj, ok := obj.(*object.Module); ok {
 				result = modObj
 				continue
